@@ -75,6 +75,15 @@ def native_layout(binary):
     for got, (pos, want, what) in zip(out4, TWO_PROJECTS_PROBES):
         if got != want:
             problems.append('%s: go-to-definition at %s of b/src/b.gleam lands on %s, expected %s' % (what, pos, got, want))
+    # the package graph is assembled a SECOND time in the session (the project's gleam.toml is opened after a module): the packages of the
+    # dependencies keep their dependencies
+    out6, alive6 = lsp_replay.workspace_scenario(binary, FILES, DEP_FIRST[0], [p[0] for p in DEP_FIRST[1]], pre_open=['src/main.gleam', 'gleam.toml'])
+    if not alive6:
+        problems.append('the server died when the package graph was assembled a second time')
+    for got, (pos, want, what) in zip(out6, DEP_FIRST[1]):
+        if got != want:
+            problems.append('after src/main.gleam and then gleam.toml were opened (second assembly of the package graph), a dependency\'s import of its own dependency: go-to-definition at %s of %s lands on %s, expected %s' % (pos, DEP_FIRST[0], got, want))
+    out = out + out6
     from . import c08
     out5, alive5 = lsp_replay.workspace_scenario(binary, c08.DEVDEP_FILES, 'test/app_test.gleam', [(3, 10)], pre_open=['src/app.gleam'])
     if not alive5:
